@@ -261,7 +261,7 @@ def c_case_elem(x, case, r, sugg=True):
 # ---------------------------------------------------------------- input generation
 NOISE = ['#[doc = "a doc"]', "/** a doc comment */", "#[cfg(test)]", "#[derive(Clone)]", "#[other(a b c !)]", "#[my::tool(x)]", "#[keep]",
          "#[keep(1, 2)]", "#[allow(dead_code)]", '#[serde(rename = "x")]', "#[x(y = 1)]", "#[my::attr::deep(q)]", "#[doc(hidden)]",
-         "#[inline]", "#[my::tool]", '#[path = "p"]', "#[::a(flag)]", "#[::keep]", "#[::x(q = 1)]", "#[::my::attr(z)]", "#[::doc(hidden)]"]
+         "#[inline]", "#[my::tool]", '#[path = "p"]', "#[r#override]", "#[r#override(x = 1)]", "#[r#final(label = 1)]", "#[::a(flag)]", "#[::keep]", "#[::x(q = 1)]", "#[::my::attr(z)]", "#[::doc(hidden)]"]
 
 
 def own_items(rng, x, mistakes=0):
@@ -311,14 +311,14 @@ def attr_list(rng, x, mistakes=0, noise=True, odd_forms=True):
             chunks = []
         for ch in chunks:
             n = rng.choice(names)
-            out.append({"kind": "selected", "name": n, "items": ch, "text": "#[%s(%s)]" % (n, ", ".join(ch)) if (ch or rng.random() < 0.5) else "#[%s]" % n})
+            out.append({"kind": "selected", "name": n, "items": ch, "text": "#[%s(%s)]" % (recvlib.w(n), ", ".join(ch)) if (ch or rng.random() < 0.5) else "#[%s]" % recvlib.w(n)})
         if odd_forms and rng.random() < 0.25:
             n = rng.choice(names)
-            out.insert(rng.randint(0, len(out)), {"kind": "selected", "name": n, "items": [], "text": rng.choice(["#[%s]" % n, "#[%s()]" % n])})
+            out.insert(rng.randint(0, len(out)), {"kind": "selected", "name": n, "items": [], "text": rng.choice(["#[%s]" % recvlib.w(n), "#[%s()]" % recvlib.w(n)])})
         if odd_forms and rng.random() < 0.12:
             n = rng.choice(names)
             out.insert(rng.randint(0, len(out)), {"kind": "odd", "name": n, "items": None,
-                                                  "text": rng.choice(['#[%s = "v"]' % n, "#[%s(a b)]" % n, "#[%s(=)]" % n, "#[%s = 3]" % n])})
+                                                  "text": rng.choice(['#[%s = "v"]' % recvlib.w(n), "#[%s(a b)]" % recvlib.w(n), "#[%s(=)]" % recvlib.w(n), "#[%s = 3]" % recvlib.w(n)])})
     if noise:
         for _ in range(rng.choice([0, 1, 1, 2, 3, 4])):
             out.insert(rng.randint(0, len(out)), {"kind": "noise", "text": rng.choice(NOISE)})
@@ -326,7 +326,7 @@ def attr_list(rng, x, mistakes=0, noise=True, odd_forms=True):
 
 
 def attr_name_of(text):
-    m = re.match(r"#\[\s*([A-Za-z_:0-9]+)", text)      # a leading `::` is kept: such a path equals no declared name
+    m = re.match(r"#\[\s*([A-Za-z_:0-9]+)", text.replace("r#", ""))      # a leading `::` is kept; `r#final` is the name `final`
     if text.startswith("/**"):
         return "doc"
     return m.group(1).replace(" ", "") if m else ""
@@ -354,7 +354,7 @@ def canonical(x, attrs):
     for a in attrs:
         if a["kind"] == "selected":
             if not placed and items:
-                out.append({"kind": "selected", "name": x["attr_names"][0], "items": items, "text": "#[%s(%s)]" % (x["attr_names"][0], ", ".join(items))})
+                out.append({"kind": "selected", "name": x["attr_names"][0], "items": items, "text": "#[%s(%s)]" % (recvlib.w(x["attr_names"][0]), ", ".join(items))})
                 placed = True
         elif is_forwarded(x, a):
             out.append(a)
@@ -373,7 +373,9 @@ def gen_field_src(rng, f, mistakes=0, named=True, fixed_attrs=None):
         x = EBY.get(f) if isinstance(f, str) else None
     attrs = fixed_attrs if fixed_attrs is not None else (attr_list(rng, x, mistakes) if x else [{"kind": "noise", "text": t} for t in rng.sample(NOISE, rng.choice([0, 1, 2]))])
     vis = rng.choice(["", "", "pub ", "pub(crate) ", "pub(in crate::a) ", "pub(super) "])
-    ty = rng.choice(["u8", "Vec<String>", "Option<T>", "&'a str", "[u8; N]", "(u8, T)", "Box<dyn Fn(u8) -> T>", "std::collections::HashMap<String, T>"])
+    # (a parenthesised type is a different `syn::Type` from what it encloses: the `ty` member must keep the parentheses)
+    ty = rng.choice(["u8", "Vec<String>", "Option<T>", "&'a str", "[u8; N]", "(u8, T)", "Box<dyn Fn(u8) -> T>", "std::collections::HashMap<String, T>",
+                     "(Option<T>)", "(dyn Fn(u8) -> u8 + Send)", "((u8))"])
     name = rng.choice(["first", "second", "value", "r#type", "x"])
     return attrs, "%s %s%s%s" % (texts(attrs), vis, (name + ": ") if named else "", ty)
 
